@@ -762,6 +762,10 @@ impl Engine for ByzSim {
         Duration::from_secs(120)
     }
 
+    fn timing_clauses(&self) -> Vec<&'static str> {
+        vec!["work-cpu"]
+    }
+
     fn generate(&self, _index: u64, seed: u64, _tier: Tier) -> Case {
         generate(seed)
     }
